@@ -9,6 +9,7 @@ RULE_DOC = {
     "P2": "releasing decrements are Release or stronger",
     "P3": "frees / in-place writes after a uniqueness test are ordered by an acquire",
     "P4": "only the Arc protocol's atomic operations touch the counter",
+    "P5": "the result of every releasing decrement decides who frees: a handle is overwritten only after 'not last' or after the free",
     "DUP": "bitwise handle copies only after an increment",
     "R-contract": "unsafe-contract obligation discharged at every call site on every path",
     "R-erratomic": "no effect on the receiver precedes an Err exit",
@@ -36,6 +37,12 @@ RULE_DOC = {
     "C10-static-nowrite": "static strings: no write primitive / mutable view on read/shrink paths",
     "C10-static-stays": "static strings stay borrowed or become inline", "C10-mutptr": "*mut from the storage pointer only under a heap guard",
     "C11-cap": "capacity() reports the room the write path uses", "C11-reserve": "reserve: Ok => exclusive; within capacity => no allocation, no move",
+    "T6-clone": "clone_from replaces the target by the shallow clone of the source on every path; clone() is the shallow clone",
+    "C10-clone": "clone_from between borrowed handles takes the source's (pointer, length) on every path",
+    "C08-clone_from": "clone_from replaces the target by the shallow clone of the source on every path",
+    "R-panicatomic": "no effect on a pre-existing receiver precedes the panic taken when allocation fails (iterator-driven operations: between items)",
+    "C13-lands": "realloc returns Ok only after recording the requested capacity",
+    "C11-lands": "realloc returns Ok only after recording the requested capacity",
     "FLOOR": "instance floor (fail closed)",
     "BUILD": "configuration builds",
     "unclassified": "construct the rule tables do not know",
@@ -43,7 +50,7 @@ RULE_DOC = {
 
 
 def rules_C03(ctx):
-    ctx.take_ts(["R2", "R3", "P1", "DUP", "R-contract.dealloc", "R-contract.released-last", "unclassified", "solver"])
+    ctx.take_ts(["R2", "R3", "P1", "P5", "DUP", "R-contract.dealloc", "R-contract.released-last", "unclassified", "solver"])
     r_own.rule_drop_releases(ctx)
     r_own.rule_raw_leak(ctx)
     r_own.rule_U1(ctx, include_panic=False, rule="U1")
@@ -53,16 +60,18 @@ def rules_C03(ctx):
 
 
 def rules_C04(ctx):
-    ctx.take_ts(["R1", "P2", "P3", "P4", "unclassified", "solver"])
+    ctx.take_ts(["R1", "P2", "P3", "P4", "P5", "unclassified", "solver"])
     # a write into a buffer other handles (threads) can read is a data race: writes require proved uniqueness
     ctx.take_ts(["R-contract.Modifiable", "R-contract.Unique", "R-contract.realloc", "R-contract.set_len"])
+    # the free is ordered after every other owner's last access (acquire after the last decrement)
+    ctx.take_ts(["R-contract.dealloc", "R-contract.released-last"])
     r_api.rule_send_sync(ctx)
     r_api.rule_atomics_syntactic(ctx)
     r_api.rule_witnesses(ctx)
 
 
 def rules_C05(ctx):
-    ctx.take_ts(["R-erratomic", "R2", "unclassified", "solver"])
+    ctx.take_ts(["R-erratomic", "R-panicatomic", "R2", "unclassified", "solver"])
     r_own.rule_U1(ctx, include_panic=True, rule="U1P")
     r_layout.rule_null_checks(ctx)
     r_api.rule_pairing(ctx)
@@ -81,6 +90,7 @@ def rules_C02(ctx):
 def rules_C13(ctx):
     r_shrink.rule_no_growth_in_shrink(ctx)
     r_shrink.rule_shrink_guards(ctx)
+    r_shrink.rule_realloc_lands(ctx)
     r_layout.rule_capacity_roots(ctx)
 
 
@@ -90,6 +100,7 @@ def rules_C11(ctx):
     r_layout.rule_capacity_roots(ctx)
     r_layout.rule_reserve_post(ctx)
     r_layout.rule_layout_agreement(ctx)
+    r_shrink.rule_realloc_lands(ctx, rule="C11-lands")
 
 
 def rules_C18(ctx):
@@ -106,6 +117,8 @@ def rules_C01(ctx):
     r_text.rule_T3(ctx)
     r_text.rule_T4(ctx)
     r_text.rule_T5(ctx)
+    # String::clone_from leaves the target equal to the source, whatever the two handles share
+    r_reach.rule_clone_replaces(ctx, rule="T6-clone")
 
 
 def rules_C06(ctx):
@@ -142,6 +155,9 @@ def rules_C15(ctx):
 
 def rules_C16(ctx):
     r_deleg.rule_C16(ctx)
+    # the constructors hand the decoded text to the storage layer: its length must be storable for
+    # every length (the checked Capacity / TextLen constructors and their bounds, per target)
+    r_size.rule_checked_ctors(ctx)
 
 
 def rules_C17(ctx):
@@ -180,13 +196,16 @@ def rules_C09(ctx):
 
 def rules_C10(ctx):
     r_reach.rule_C10(ctx)
+    # two handles borrowing the same static text can differ in length: assigning one to the other
+    # takes the source's (pointer, length) pair on every path
+    r_reach.rule_clone_replaces(ctx, rule="C10-clone")
     # the first growing operation moves a static handle to storage that really has the room
     r_layout.rule_reserve_post(ctx)
 
 
 PROPS = {
     "C01": {"rules": rules_C01, "level": "other",
-            "explanation": "Five structural necessary conditions of 'reads back what was written, whatever the storage' (the behavioural equivalence with String itself is a value-level statement and is NOT decided): T1 writer/reader agreement on the tag byte - compiler-evaluated TextLen::TAG / StaticBuffer::TAG last memory byte (target endianness) = LastByte::HeapMarker / StaticMarker discriminants, inline tag = len|0xC0 at byte MAX_INLINE_SIZE-1 in new/empty/set_len, is_heap_buffer/is_static_buffer summaries true exactly for their kind, len/as_bytes decode with the same constants, tag ordering text < inline < heap < static; T2 every storage view cast is taken under the matching kind guard (typestate); T3 in every body that takes a mutable view (push_str, insert_str, remove, retain, 10 integer writers) set_len or the publishing guard lies on every path from each write to return; T4 every InlineBuffer::new call site is dominated by a proof that the text fits; T5 InlineBuffer::set_len writes the tag byte only when len < MAX_INLINE_SIZE."},
+            "explanation": "Five structural necessary conditions of 'reads back what was written, whatever the storage' (the behavioural equivalence with String itself is a value-level statement and is NOT decided): T1 writer/reader agreement on the tag byte - compiler-evaluated TextLen::TAG / StaticBuffer::TAG last memory byte (target endianness) = LastByte::HeapMarker / StaticMarker discriminants, inline tag = len|0xC0 at byte MAX_INLINE_SIZE-1 in new/empty/set_len, is_heap_buffer/is_static_buffer summaries true exactly for their kind, len/as_bytes decode with the same constants, tag ordering text < inline < heap < static; T2 every storage view cast is taken under the matching kind guard (typestate); T3 in every body that takes a mutable view (push_str, insert_str, remove, retain, 10 integer writers) set_len or the publishing guard lies on every path from each write to return; T4 every InlineBuffer::new call site is dominated by a proof that the text fits; T5 InlineBuffer::set_len writes the tag byte only when len < MAX_INLINE_SIZE. T6 clone_from passes replace_inner(self, shallow clone of source) on every path (handles sharing a buffer or a static text can differ in length) and clone() is the shallow clone."},
     "C06": {"rules": rules_C06, "level": "other",
             "explanation": "Checked constructors: Capacity / TextLen / StaticBuffer values are built only inside their `new`, behind `size <= MAX_LEN` with MAX_LEN evaluated for the target (2^56-1 on 64-bit); with that bound the unchecked header+capacity sum of realloc cannot wrap (constant arithmetic; on 32-bit the ALLOC_LIMIT edge must dominate realloc). Size taint: values derived from the public capacity/additional/min_capacity parameters and from size_hint lower bounds, propagated through local calls, reach only checked_*/saturating_* operations and the bound-checked constructors - never raw +,*,<<,- or wrapping_*/unchecked_* calls. The layout computation is checked_add + Layout::from_size_align; allocator results are null-tested and map to Err; every Err exit is effect-free (R-erratomic, R2)."},
     "C07": {"rules": rules_C07, "level": "other",
@@ -194,29 +213,29 @@ PROPS = {
     "C12": {"rules": rules_C12, "level": "other",
             "explanation": "The growth rule's loop-free MIR is lifted to an expression and must normalise to max(G(len), len +sat additional) with G one of the spellings arithmetically equal to len + floor(len/2) (saturating, no overflow panic) - the property pins the value, so any other expression is a behavioural change. Every growth site applies it to (old LENGTH, caller's additional): reserve's in-place realloc takes amortized_growth(len(self), additional), all growing copies go through with_additional(self's text, additional), which allocates Capacity::new(amortized_growth(len(text), additional)); no exact-fit constructor is used to grow; push_str/insert_str reach allocation only through reserve(string.len())."},
     "C14": {"rules": rules_C14, "level": "proof",
-            "explanation": "Digit-count tables decided for ALL values: each DigitCount::digit_count body is a loop-free comparison DAG; path enumeration with an interval for the parameter yields the exact partition of the type's range, which must cover the type, never fall through to `unreachable`, and give len(to_string()) at both endpoints of every sign-homogeneous interval (decimal width is monotone in |x|) - Python big integers, no sampling. usize/isize delegate through a lossless cast to the width-matching table. Dispatch: each of the 24 integer/NonZero castaway arms calls Repr::from_num::<X> on its own cast value. Writer consistency: digit_count(self) feeds with_capacity, and set_len; the work-type cast is lossless; LUT = 00..99; thresholds/divisors 10^4, 10^2, 10; 128-bit and NonZero forms delegate (itoa / get().into_repr())."},
+            "explanation": "Digit-count tables decided for ALL values: each DigitCount::digit_count body is a loop-free comparison DAG; path enumeration with an interval for the parameter yields the exact partition of the type's range, which must cover the type, never fall through to `unreachable`, and give len(to_string()) at both endpoints of every sign-homogeneous interval (decimal width is monotone in |x|) - Python big integers, no sampling. usize/isize delegate through a lossless cast to the width-matching table. Dispatch: each of the 24 integer/NonZero castaway arms calls Repr::from_num::<X> on its own cast value. Writer consistency: digit_count(self) feeds with_capacity, and set_len; the work-type cast is lossless; LUT = 00..99; thresholds/divisors 10^4, 10^2, 10; 128-bit and NonZero forms delegate (itoa / get().into_repr()). The buffer the digits are written into is with_capacity(digit_count(self)) or, per target, the empty inline buffer only when every value of the type fits the inline capacity of that target (arms cut off by size_of comparisons are pruned)."},
     "C08": {"rules": rules_C08, "level": "proof",
             "explanation": "Call-graph proof over the resolved program: from Clone::clone, Clone::clone_from, From<&LeanString>::from and Repr::make_shallow_clone no allocation site, no copy primitive, no heap constructor and no user-code edge is reachable (leaves are core::* and alloc::alloc::dealloc only, no unresolved edge), the value returned by make_shallow_clone is core::ptr::read(self) on every path, and on the heap edge exactly one increment precedes that read (typestate P1/DUP). Holds for all lengths and storage states."},
     "C09": {"rules": rules_C09, "level": "other",
             "explanation": "Every call from outside the heap-buffer module into an allocating heap-buffer function is dominated by the exact inline threshold edge (quantity > MAX_INLINE_SIZE evaluated for the target, on the right quantity: len(text) / capacity / len+additional / max(len,min)) or by a kind=Heap guard; no other body allocates directly; all constructors reach the allocator only through those gates; under the assumption kind=Inline the shrinking edits reach no allocation and the growing ones only the guarded gate; HeapBuffer::new performs exactly one allocation with capacity = len(text)."},
     "C10": {"rules": rules_C10, "level": "other",
-            "explanation": "from_static_str reaches no allocation site and copies text only via InlineBuffer::new behind len <= MAX_INLINE_SIZE; StaticBuffer::new stores the caller's pointer; under the assumption kind=Static (typestate walk with edge refinement) clone/pop/truncate/clear/shrink_to/len/capacity/as_bytes reach no allocation and no write primitive or mutable view and stay static-or-inline; every write-capable call site excludes kind=Static (R-contract); *mut pointers are derived from the storage pointer only under a heap guard."},
+            "explanation": "from_static_str reaches no allocation site and copies text only via InlineBuffer::new behind len <= MAX_INLINE_SIZE; StaticBuffer::new stores the caller's pointer; under the assumption kind=Static (typestate walk with edge refinement) clone/pop/truncate/clear/shrink_to/len/capacity/as_bytes reach no allocation and no write primitive or mutable view and stay static-or-inline; every write-capable call site excludes kind=Static (R-contract); *mut pointers are derived from the storage pointer only under a heap guard. clone_from between borrowed handles takes the source (pointer, length) pair on every path."},
     "C02": {"rules": rules_C02, "level": "other",
             "explanation": "Typestate analysis over MIR of every function that can reach a write into string storage: at each call of as_slice_mut / as_str_mut / Repr::set_len / HeapBuffer::realloc / HeapBuffer::set_len, every abstract state (storage kind x uniqueness x reference state) reaching the call on any path satisfies the callee's unsafe contract (not static, heap => proved unique). Callee summaries (reserve, ensure_modifiable, replace_inner, is_unique ...) are computed from their bodies, not assumed; debug assertions never discharge an obligation."},
     "C03": {"rules": rules_C03, "level": "other",
-            "explanation": "Reference-count protocol as a typestate over all CFG paths incl. Err and unwind exits (R2 balanced exits, R3 no overwrite of a counted handle, P1/DUP increments pair with bitwise copies, dealloc only at last-reference+acquire or sole owner), plus ownership dataflow for drop-less raw Repr values (moved into an owner before return, never live across user code) and Drop-for-LeanString must-release."},
+            "explanation": "Reference-count protocol as a typestate over all CFG paths incl. Err and unwind exits (R2 balanced exits, R3 no overwrite of a counted handle, P1/DUP increments pair with bitwise copies, dealloc only at last-reference+acquire or sole owner), plus ownership dataflow for drop-less raw Repr values (moved into an owner before return, never live across user code) and Drop-for-LeanString must-release. P5: a handle is overwritten only after its releasing decrement was examined and said not-last, or after the free (an unexamined or ignored result leaks the buffer when the other owners go first). The same rules run through Drop bodies of local guard types and through helpers that take the raw buffer pointer."},
     "C04": {"rules": rules_C04, "level": "other",
-            "explanation": "Schedule-free path rules: R1 no access to the buffer through a handle after its releasing decrement (any interleaving may free/realloc it then), P2 decrements are Release+, P3 uniqueness probes / rollbacks / frees are acquire-ordered, P4 no other atomic operation on the counter. Holding on all CFG paths implies holding under every schedule and every C11-permitted reordering of those atomics."},
+            "explanation": "Schedule-free path rules: R1 no access to the buffer through a handle after its releasing decrement (any interleaving may free/realloc it then), P2 decrements are Release+, P3 uniqueness probes / rollbacks / frees are acquire-ordered, P4 no other atomic operation on the counter. Holding on all CFG paths implies holding under every schedule and every C11-permitted reordering of those atomics. P5 (a decrement whose result is not examined cannot decide who frees) and the dealloc contract (last reference + acquire fence, in every feature configuration: arms cut off by cfg!(feature = ..) are pruned per configuration) are part of the check."},
     "C05": {"rules": rules_C05, "level": "other",
-            "explanation": "Failure atomicity as a path property: for every function with a string receiver that returns Result<_, ReserveError>, every abstract state reaching an Err return has had no effect on the receiver (no length/field write, no value-changing reassignment, reference count balanced); no drop-less heap owner is live across unwrap_with_msg (the panic taken when allocation fails)."},
+            "explanation": "Failure atomicity as a path property: for every function with a string receiver that returns Result<_, ReserveError>, every abstract state reaching an Err return has had no effect on the receiver (no length/field write, no value-changing reassignment, reference count balanced); no drop-less heap owner is live across unwrap_with_msg (the panic taken when allocation fails). R-panicatomic: at every exported function taking the string by &mut, each abstract state that reaches the allocation-failure panic (the unwrap helper called on a Result not known to be Ok, also inside callees) has had no effect on the receiver since entry - or, for iterator-driven operations, since the last Iterator::next (they may stop between items)."},
     "C11": {"rules": rules_C11, "level": "other",
-            "explanation": "Reader/writer agreement on the capacity word: HeapBuffer::capacity reads header().capacity; Header values are written only next to the allocator call with the very capacity the block was sized with; Repr::capacity and the mutable slice of as_slice_mut agree arm by arm (heap: HeapBuffer::capacity, inline: MAX_INLINE_SIZE = size of the inline array); reserve's computed summary: every Ok exit owns its storage exclusively; within-capacity fast paths (unique heap with capacity >= len+additional, inline within the limit) reach no allocation and no reassignment; realloc happens only behind capacity < needed and to amortized_growth(len, additional)."},
+            "explanation": "Reader/writer agreement on the capacity word: HeapBuffer::capacity reads header().capacity; Header values are written only next to the allocator call with the very capacity the block was sized with; Repr::capacity and the mutable slice of as_slice_mut agree arm by arm (heap: HeapBuffer::capacity, inline: MAX_INLINE_SIZE = size of the inline array); reserve's computed summary: every Ok exit owns its storage exclusively; within-capacity fast paths (unique heap with capacity >= len+additional, inline within the limit) reach no allocation and no reassignment; realloc happens only behind capacity < needed and to amortized_growth(len, additional). HeapBuffer::realloc returns Ok only after the new capacity was recorded (fresh Header written with Capacity::new(new_capacity), or replacement by a buffer allocated with it)."},
     "C13": {"rules": rules_C13, "level": "other",
-            "explanation": "The growth rule (amortized_growth) is unreachable from Repr::shrink_to; every buffer-changing call in shrink_to is dominated by the edge max(len, min_capacity) < old capacity and sized with exactly max(len, min_capacity); the heap-to-inline conversion sits behind max(len, min) <= MAX_INLINE_SIZE; non-heap receivers return Ok untouched (typestate walk); the bytes copied are the receiver's own text."},
+            "explanation": "The growth rule (amortized_growth) is unreachable from Repr::shrink_to; every buffer-changing call in shrink_to is dominated by the edge max(len, min_capacity) < old capacity and sized with exactly max(len, min_capacity); the heap-to-inline conversion sits behind max(len, min) <= MAX_INLINE_SIZE; non-heap receivers return Ok untouched (typestate walk); the bytes copied are the receiver's own text. HeapBuffer::realloc returns Ok only after recording the requested capacity (no fast path that keeps the old one), so a shrink lands on the request."},
     "C15": {"rules": rules_C15, "level": "other",
             "explanation": "Dispatch arms of try_to_lean_string: &bool -> Repr::from_bool, &char -> Repr::from_char, &String -> Repr::from_str(s.as_str()), &LeanString -> Clone::clone, &f32/&f64 -> from_num -> Repr::from_str(ryu::Buffer::format(x)) (format, not format_finite: NaN/inf handled), each on its own cast value; generic fallback formats into LeanString::new() through fmt::Write whose only override is write_str = push_str; Ok(()); `?` maps fmt::Error through From -> Fmt and ReserveError -> Reserve (bodies build exactly that variant); from_bool's compiler-evaluated TRUE/FALSE constants are the inline encodings of \"true\"/\"false\" selected on the right edges; from_char encodes with encode_utf8. The outputs of ryu/itoa/Display themselves are trusted library behaviour, not decided."},
     "C16": {"rules": rules_C16, "level": "other",
-            "explanation": "Agreement with std by shared delegation: from_utf8 = LeanString::from(core::str::from_utf8(buf)?) with core's error propagated unchanged; from_utf8_lossy iterates buf.utf8_chunks(), appends chunk.valid() and pushes U+FFFD exactly on the edge !chunk.invalid().is_empty(), valid part first; from_utf16 pushes every Ok item of char::decode_utf16(buf.iter().copied()) and returns Err(FromUtf16Error) on the decoder's first Err; from_utf16_lossy = decode.map(|r| r.unwrap_or(U+FFFD)).collect::<LeanString>(); none of the four compares or computes on an input unit itself, so every decoding decision is core's (the same routines String's constructors use)."},
+            "explanation": "Agreement with std by shared delegation: from_utf8 = LeanString::from(core::str::from_utf8(buf)?) with core's error propagated unchanged; from_utf8_lossy iterates buf.utf8_chunks(), appends chunk.valid() and pushes U+FFFD exactly on the edge !chunk.invalid().is_empty(), valid part first; from_utf16 pushes every Ok item of char::decode_utf16(buf.iter().copied()) and returns Err(FromUtf16Error) on the decoder's first Err; from_utf16_lossy = decode.map(|r| r.unwrap_or(U+FFFD)).collect::<LeanString>(); none of the four compares or computes on an input unit itself, so every decoding decision is core's (the same routines String's constructors use). Loops may be `for`, `while let` or closures given to for_each / try_for_each: the element is the canonical item(iterator) in every form. The decoded text is handed to the storage layer, whose checked length / capacity constructors and bounds are judged per target (32-bit: MAX_LEN stays below the on-heap-length sentinel)."},
     "C17": {"rules": rules_C17, "level": "other",
             "explanation": "Every impl of PartialEq/Eq/PartialOrd/Ord/Hash/Display/Debug/Deref/AsRef/Borrow involving LeanString (enumerated from the compiler's impl table, incl. feature-gated AsRef<OsStr>) has a single-expression body that delegates to the same method of str on as_str() of each LeanString argument and nothing else (no field projection, pointer or capacity comparison, no second return path); partial_cmp = Some(cmp); PartialEq exists in both directions for str, &str, String, Cow<str>; Eq/Ord/Hash/Borrow<str> present; no derived structural impl; as_str/as_bytes/len/is_empty are the Repr views."},
     "C19": {"rules": rules_C19, "level": "other",
